@@ -12,7 +12,10 @@ from common import Outcome, finish, lean_batch, proof_status, rng, scratch
 
 PROP = "C18"
 TRUSTED = c01.TRUSTED
-NAMES = ["X", "XY", "XYZ", "A", "AB", "HEADER", "HEADER_INCLUDES", "Foo_on_entry", "Foo_on_exit", "a", "Ab", "T1", "T10"]
+NAMES = ["X", "XY", "XYZ", "A", "AB", "HEADER", "HEADER_INCLUDES", "Foo_on_entry", "Foo_on_exit", "a", "Ab", "T1", "T10",
+         # hand-made tags are not always identifiers
+         # (only characters CleanUpLine leaves alone on the pinned tree: a `+`, `=`, `~` ... inside a name is comment style to the tool)
+         "PRE-INIT", "POST-INIT", "T-1", "\u72b6\u614b"]
 TEXT = ["\n", "\n", "   \n", "\tcode();\n", "x = 1;\n", "<<<EXTENDS=other.txt>>>\n", "<<<EXCLUDE=foo>>>\n", "  <<<IF a>>>\n", "// plain comment\n",
         "/// {{{ USER_X }}}\n", "{{USER_X}}\n", "USER_X\n", "s = \"äöü\";\n", "\t\t\n"]
 
